@@ -311,9 +311,13 @@ def native_full_sequences(chk):
         'qa only': ('', '', 'constructor_order|%s|5' % hexs('A.sol')),
         'nothing': ('', '', ''),
         'only empty line sets': ('floating_pragma|%s|' % hexs('A.sol'), 'sstore|%s|' % hexs('A.sol'), ''),
+        # file names with control characters, placeholders and markdown in all three categories: what is WRITTEN is what the generators return
+        'hostile names': ('floating_pragma|%s|3;unsafe_erc20_operation|%s|4' % (hexs('My\tToken.sol'), hexs('a\x1b[31mb.sol')),
+                          'sstore|%s|5;solidity_math|%s|6,7;shift_math|%s|8' % (hexs('x\x7f.sol'), hexs('y\u0085z.sol'), hexs('Template{line}.sol')),
+                          'constructor_order|%s|5;private_vars_leading_underscore|%s|9' % (hexs('\x01lead.sol'), hexs('### Lines'))),
     }
     has = lambda sp: any(item.split('|')[2] for item in sp.split(';') if item)
-    orders = [('long', 'short'), ('short', 'long'), ('long', 'qa only'), ('long', 'nothing'), ('short', 'short'), ('long', 'only empty line sets', 'long')]
+    orders = [('long', 'short'), ('short', 'long'), ('long', 'qa only'), ('long', 'nothing'), ('short', 'short'), ('long', 'only empty line sets', 'long'), ('hostile names',)]
     for order in orders:
         d = os.path.join(chk.native.dir, 'fullseq%d' % chk.native.n); chk.native.n += 1
         os.makedirs(d)
